@@ -199,6 +199,16 @@ from mpilot import params
 from mpilot.commands import Command
 
 HOLD = {}     # result name -> the array the command hands out
+FAIL = {}     # result name -> "mp" | "raw": the command fails (a missing file, a broken plug-in) until the entry is removed
+
+
+def _maybe_fail(cmd):
+    how = FAIL.get(cmd.result_name)
+    if how == "mp":
+        from mpilot.exceptions import ProgramError
+        raise ProgramError(cmd.lineno, "input not available (deliberate)")
+    if how == "raw":
+        raise IOError("input not available (deliberate)")
 
 
 class HeldData(Command):
@@ -207,6 +217,7 @@ class HeldData(Command):
     output = params.DataParameter()
 
     def execute(self, **kw):
+        _maybe_fail(self)
         return HOLD[self.result_name]
 
 
@@ -217,6 +228,7 @@ class HeldFuzzy(Command):
     output = params.DataParameter()
 
     def execute(self, **kw):
+        _maybe_fail(self)
         return HOLD[self.result_name]
 '''
 
@@ -245,7 +257,7 @@ def _np_scalar(rng, v):
     return v
 
 
-def run_pipeline(case, producers_first=True, rng=None, whole_run=False, program=None, tag=""):
+def run_pipeline(case, producers_first=True, rng=None, whole_run=False, program=None, tag="", fault=None):
     """The same case through the whole pipeline: a Program whose producer commands hand out the input arrays, the command under test added
     with its arguments as the parser would deliver them (numbers, words, ListArguments), evaluated through `.result` - i.e. through
     `Command.run`, `validate_params` and every parameter cleaner.  Returns a dict like run_impl; raw exceptions raised inside the body arrive
@@ -293,6 +305,24 @@ def run_pipeline(case, producers_first=True, rng=None, whole_run=False, program=
         old = numpy.seterr(all="ignore")
         try:
             p.add_command(cls, "R" + tag, args, lineno=CMD_LINE)
+            if fault is not None:
+                # one input cannot be produced at first (fault = (how, which input, through run() or .result)): the evaluation fails with an MPilot error;
+                # then the cause is removed and the SAME program and commands are evaluated again
+                how_, which_, via_run = fault
+                bad = "I%s%d" % (tag, sorted(copies)[which_ % len(copies)])
+                lib.FAIL[bad] = how_
+                try:
+                    if via_run:
+                        p.run()
+                    else:
+                        p.commands["R" + tag].result
+                    out["fault_outcome"] = "no error"
+                except MPilotError as e:
+                    out["fault_outcome"] = "mp"
+                except Exception as e:
+                    out["fault_outcome"] = "raw:" + type(e).__name__
+                finally:
+                    lib.FAIL.clear()
             if producers_first:
                 for i in sorted(copies):
                     p.commands["I%s%d" % (tag, i)].result
@@ -359,6 +389,62 @@ def compare(out, answer, tol=common.TOL):
             return None           # class of a raw Python exception is not compared (it is wrapped as UnexpectedError)
     return "model answered %r" % answer
 
+
+
+# ---------------------------------------------------------------- exactness on dyadic inputs
+
+# Commands whose body, on inputs and parameters that are small binary fractions, performs only operations that are exact in binary64 (sums, differences,
+# products of few-bit values, comparisons, selection) plus at most ONE division, which comes last or is followed by exact steps only.  IEEE division is
+# correctly rounded, so such a body returns the exact value of its definition whenever that value is itself a binary fraction.  A result that is an ulp
+# off there means roundings were added (a reciprocal multiplied in, a division per term, a re-associated sum) - which is what breaks the exact claims of
+# the properties: results inside [-1, +1], And <= Union <= Or (a mean of equal values IS that value), thresholds mapped to exactly +1 / -1, the same result
+# for every ordering of the inputs.
+EXACT_CMDS = {"Sum", "WeightedSum", "Multiply", "AMinusB", "ADividedByB", "Minimum", "Maximum", "Mean", "WeightedMean", "Copy",
+              "FuzzyOr", "FuzzyAnd", "FuzzyNot", "FuzzyUnion", "FuzzyWeightedUnion", "FuzzySelectedUnion", "CvtToFuzzy", "CvtFromFuzzy", "CvtToBinary",
+              "CvtToFuzzyCat", "NormalizeCat"}
+
+
+def _small_dyadic(fr, max_den=1 << 12, max_num=1 << 24):
+    d = fr.denominator
+    return d & (d - 1) == 0 and d <= max_den and abs(fr.numerator) <= max_num
+
+
+def _num_small_dyadic(v):
+    if isinstance(v, bool):
+        return True
+    if isinstance(v, int):
+        return abs(v) <= 1 << 20
+    if isinstance(v, float):
+        return v == v and abs(v) != float("inf") and _small_dyadic(Fraction(v), 1 << 8, 1 << 16)
+    if isinstance(v, (list, tuple)):
+        return all(_num_small_dyadic(x) for x in v)
+    return True            # words
+
+
+def dyadic_case(case):
+    """every visible value and every numeric parameter is a binary fraction of a few bits (the lattice generators produce such cases)"""
+    if case.cmd not in EXACT_CMDS or len(case.inputs) > 8:
+        return False
+    for a in case.inputs:
+        if a.dtype not in (numpy.float64, numpy.int64):
+            return False
+        vis = numpy.ma.getdata(a)[~numpy.ma.getmaskarray(a)]
+        if vis.size and not all(_num_small_dyadic(x) for x in vis.ravel().tolist()):
+            return False
+    return all(_num_small_dyadic(v) for v in case.params.values())
+
+
+def exact_mismatch(case, out, answer):
+    """None, or the first cell whose exact value is a small binary fraction and which the implementation does not return exactly"""
+    if out["status"] != "ok" or not answer.startswith("ok ") or out["vis"][3] is None or not dyadic_case(case):
+        return None
+    mvals = common.parse_model_arr(answer[3:])[2]
+    for i, (a, b) in enumerate(zip(out["vis"][3], mvals)):
+        if a is None or b is None:
+            continue
+        if _small_dyadic(b) and float(a) != float(b):
+            return "cell %d: %r, the exact value is %s = %r (all inputs and parameters are binary fractions; only exactly representable steps and one correctly rounded division are needed)" % (i, a, b, float(b))
+    return None
 
 # ---------------------------------------------------------------- generators
 
@@ -765,7 +851,7 @@ def tile_twin(ctx, c, out, k):
             c.cmd, k, ins[0].size, j, w[j] if w is not None and j < len(w) else None, v[j % m], out6["vis"][1], out["vis"][1]), dict(c.describe(), repeated=k))
 
 
-def run_stream(ctx, model, cases, stream, tol=common.TOL, on_result=None, rerun=True, narrow=True, pipeline=True, layout=True, strict=True, payload=True, tile=True):
+def run_stream(ctx, model, cases, stream, tol=common.TOL, on_result=None, rerun=True, narrow=True, pipeline=True, layout=True, strict=True, payload=True, tile=True, exact=True, fault=True):
     """runs cases on implementation and model, records disagreements; calls on_result(case, out, answer)"""
     outs = []
     kept = []
@@ -792,6 +878,12 @@ def run_stream(ctx, model, cases, stream, tol=common.TOL, on_result=None, rerun=
                 if ans.startswith("ok ") and out["status"] == "err" and out["kind"] == "raw":
                     # the command has a defined result for this input (the theorems of the property are about it) and the implementation crashes instead
                     ctx.fail("%s fails with %s (%s) on an input for which its result is defined: %s" % (c.cmd, out["cls"], str(out.get("text"))[:80], ans[:120]), c.describe())
+            elif exact:
+                d = exact_mismatch(c, out, ans)
+                if d is not None:
+                    ctx.fail("%s: not exact where the arithmetic needs no rounding - %s" % (c.cmd, d), c.describe())
+                elif dyadic_case(c) and out["status"] == "ok":
+                    ctx.count("exact_on_dyadic_inputs")
         if rerun and out["status"] == "ok":
             # the same command over the very same input objects again (no copies in between) must give the same result:
             # a body that writes into an input array corrupts every later consumer of that input
@@ -875,6 +967,18 @@ def run_stream(ctx, model, cases, stream, tol=common.TOL, on_result=None, rerun=
                             numpy.array_equal(numpy.ma.getdata(before)[keep], numpy.ma.getdata(after)[keep])):
                         ctx.fail("%s: evaluated inside a Program, the stored result of one of its inputs changed" % c.cmd, c.describe())
                         break
+            if fault and out["status"] == "ok" and c.inputs and ctx.rng.random() < 0.3:
+                # a first evaluation that fails because one input cannot be produced (MPilot error or any other), the cause removed, the same objects evaluated again
+                fl = (ctx.rng.choice(["mp", "raw"]), ctx.rng.randrange(8), bool(ctx.rng.random() < 0.5))
+                piped = run_pipeline(c, producers_first=False, whole_run=bool(ctx.rng.random() < 0.5), fault=fl)
+                ctx.count("fault_then_repair_twins")
+                if piped.get("fault_outcome") != "mp":
+                    ctx.fail("%s: with an input that cannot be produced the evaluation ends with %s instead of an MPilot error" % (c.cmd, piped.get("fault_outcome")), dict(c.describe(), fault=list(fl)))
+                else:
+                    d = pipeline_differs(out, piped)
+                    if d:
+                        ctx.fail("%s: after a failed evaluation (an input could not be produced) whose cause was removed, evaluating the same Program again "
+                                 "differs from the body's own outcome: %s" % (c.cmd, d), dict(c.describe(), fault=list(fl)))
             if out["status"] == "ok" and ctx.rng.random() < 0.5:
                 # the same command as one of many in ONE long-lived Program (sub-models over other shapes, element types and parameters
                 # were evaluated there before it): what it returns depends on its own inputs and parameters only
